@@ -15,10 +15,13 @@
 //	crash save <sc> <k> <oldhex> <tree> | crash wf <sc> <k> <oldhex> <newhex>
 //	                                   kill the saving child before its k-th <sc> call -> old-or-new | torn:<hex>
 //
+//	conc <writers> <millis> <seed>     overlapping ptt.WriteFavorites calls for one user + a reader (P-hat only) -> whole | torn …
+//
 // <tree> := item*      item := B <attr> <bid> <lastvisit> <battr> | L <attr> <lid> | F <attr> <fid> <titlehex> [ item* ]
 package main
 
 import (
+	"bytes"
 	"fmt"
 	"math"
 	"os"
@@ -28,6 +31,8 @@ import (
 	"runtime"
 	"strconv"
 	"strings"
+	"sync"
+	"sync/atomic"
 	"time"
 
 	"github.com/Ptt-official-app/go-pttbbs/ptt"
@@ -667,10 +672,150 @@ func execOp(line string) (res result) {
 		} else {
 			res.label += ":killed-old"
 		}
+	case "conc":
+		if len(ws) != 4 {
+			return bad()
+		}
+		nw, e1 := num(ws[1], 64)
+		ms, e2 := num(ws[2], 60000)
+		sd, e3 := num(ws[3], math.MaxUint32)
+		if e1 != nil || e2 != nil || e3 != nil || nw == 0 || ms == 0 {
+			return bad()
+		}
+		var what string
+		res.out, what = concCase(int(nw), int(ms), sd)
+		res.label = "conc:" + strings.Fields(res.out)[0]
+		if res.out != "whole" {
+			res.fails = append(res.fails, [2]string{"torn:concurrent-writefavorites", what})
+		}
 	default:
 		return bad()
 	}
 	return res
+}
+
+// concCase: nw goroutines store complete images of different lengths with ptt.WriteFavorites for the same
+// user for ms milliseconds while a reader reads .fav in a loop. Every save must succeed, every read must
+// be byte-equal to one of the images, fav.Load must accept it, and so must the final file.
+func concCase(nw, ms int, seed uint64) (out, what string) {
+	cleanDir(uid)
+	var images [][]byte
+	for _, n := range []int{1, 40, 300, 1000, 7} {
+		images = append(images, concImage(n))
+	}
+	isImage := func(b []byte) bool {
+		for _, img := range images {
+			if bytes.Equal(b, img) {
+				return true
+			}
+		}
+		return false
+	}
+	if err := os.WriteFile(favPath, images[0], 0o644); err != nil {
+		return "setup-failed", err.Error()
+	}
+	deadline := time.Now().Add(time.Duration(ms) * time.Millisecond)
+	var nWrites, nWriteErr, nReads, nTorn, nLoadErr int64
+	var firstMu sync.Mutex
+	first := ""
+	note := func(s string) {
+		firstMu.Lock()
+		if first == "" {
+			first = s
+		}
+		firstMu.Unlock()
+	}
+	var wg sync.WaitGroup
+	for w := 0; w < nw; w++ {
+		wg.Add(1)
+		go func(w int) {
+			defer wg.Done()
+			defer func() {
+				if e := recover(); e != nil {
+					atomic.AddInt64(&nWriteErr, 1)
+					note(fmt.Sprint("WriteFavorites panicked: ", e))
+				}
+			}()
+			for k := 0; time.Now().Before(deadline); k++ {
+				img := images[(w+k+int(seed))%len(images)]
+				atomic.AddInt64(&nWrites, 1)
+				if _, err := ptt.WriteFavorites(uid, img); err != nil {
+					atomic.AddInt64(&nWriteErr, 1)
+					note("WriteFavorites returned " + strings.ReplaceAll(err.Error(), env.Home, "<home>"))
+				}
+			}
+		}(w)
+	}
+	stop := make(chan struct{})
+	var rg sync.WaitGroup
+	rg.Add(1)
+	go func() {
+		defer rg.Done()
+		defer func() {
+			if e := recover(); e != nil {
+				atomic.AddInt64(&nLoadErr, 1)
+				note(fmt.Sprint("fav.Load panicked: ", e))
+			}
+		}()
+		for i := 0; ; i++ {
+			select {
+			case <-stop:
+				return
+			default:
+			}
+			b, err := os.ReadFile(favPath)
+			atomic.AddInt64(&nReads, 1)
+			if err != nil {
+				atomic.AddInt64(&nTorn, 1)
+				note(".fav unreadable: " + strings.ReplaceAll(err.Error(), env.Home, "<home>"))
+			} else if !isImage(b) {
+				atomic.AddInt64(&nTorn, 1)
+				note(fmt.Sprintf(".fav read as %d bytes (%s), none of the images (lengths %d/%d/%d/%d/%d)", len(b), tornKind(b, images),
+					len(images[0]), len(images[1]), len(images[2]), len(images[3]), len(images[4])))
+			}
+			if i%4 == 0 {
+				if _, err := fav.Load(uid); err != nil {
+					atomic.AddInt64(&nLoadErr, 1)
+					note("fav.Load: " + err.Error())
+				}
+			}
+		}
+	}()
+	wg.Wait()
+	close(stop)
+	rg.Wait()
+	fin, err := os.ReadFile(favPath)
+	finalBad := err != nil || !isImage(fin)
+	if finalBad {
+		note(fmt.Sprintf("after all savers finished .fav has %d bytes (%s)", len(fin), tornKind(fin, images)))
+	}
+	cleanDir(uid)
+	if nTorn == 0 && nLoadErr == 0 && nWriteErr == 0 && !finalBad {
+		return "whole", ""
+	}
+	return fmt.Sprintf("torn reads=%d/%d load-errors=%d save-errors=%d/%d final-bad=%v", nTorn, nReads, nLoadErr, nWriteErr, nWrites, finalBad),
+		fmt.Sprintf("%d overlapping WriteFavorites savers: %d of %d reads of .fav were not a complete image, fav.Load failed %d times, %d of %d saves returned an error, final file bad=%v; first: %s",
+			nw, nTorn, nReads, nLoadErr, nWriteErr, nWrites, finalBad, first)
+}
+
+func concImage(nBoards int) []byte {
+	b := []byte{byte(fav.FAV_VERSION & 0xff), byte(uint16(fav.FAV_VERSION) >> 8), byte(nBoards), byte(nBoards >> 8), 0, 0}
+	for i := 1; i <= nBoards; i++ {
+		b = append(b, 1, 1, byte(i), byte(i>>8), 0, 0, 0, 0, 0, 0, 0, 0, 0, 0)
+	}
+	return b
+}
+
+func tornKind(b []byte, images [][]byte) string {
+	if len(b) == 0 {
+		return "empty"
+	}
+	for _, img := range images {
+		if len(b) < len(img) && bytes.Equal(b, img[:len(b)]) {
+			return "a proper prefix of an image"
+		}
+	}
+	return "a mixture of two images"
 }
 
 var lastSurvived bool
@@ -1087,7 +1232,7 @@ func main() {
 	favPath = filepath.Join(userDir(env.Home, uid), fav.FAV)
 	selfExe, _ = os.Executable()
 
-	run.Rule = "rt: every tree of depth<=3 with <=2 entries per level and of depth<=2 with <=3 entries per level built through the API alone (smallest first), random larger trees (depth<=6, <=40 entries per level) with overwritten attr/lid/fid/title/lastvisit fields incl. entries without the FAV bit, the API limits (MAX_LINE, MAX_FOLDER, MAX_FAV, board ids) at and past each bound; load: headers with counts from {-32768,-1,0,1,32767}x{-128,-1,0,1,127}^2 x short bodies, every type byte, every truncation of valid files, single-byte corruptions, random bytes; mt: file older/equal/newer/absent; trace+crash: strace on a re-executed saving child, SIGKILL before the k-th write/openat/renameat for every k until the child survives. distinct = distinct op lines; nontrivial = reaches the code under test (not bad-op)"
+	run.Rule = "rt: every tree of depth<=3 with <=2 entries per level and of depth<=2 with <=3 entries per level built through the API alone (smallest first), random larger trees (depth<=6, <=40 entries per level) with overwritten attr/lid/fid/title/lastvisit fields incl. entries without the FAV bit, the API limits (MAX_LINE, MAX_FOLDER, MAX_FAV, board ids) at and past each bound; load: headers with counts from {-32768,-1,0,1,32767}x{-128,-1,0,1,127}^2 x short bodies, every type byte, every truncation of valid files, single-byte corruptions, random bytes; mt: file older/equal/newer/absent; conc: 4-8 goroutines store images of 5 different lengths with ptt.WriteFavorites for one user while a reader reads and loads .fav in a loop; trace+crash: strace on a re-executed saving child, SIGKILL before the k-th write/openat/renameat for every k until the child survives. distinct = distinct op lines; nontrivial = reaches the code under test (not bad-op)"
 
 	if run.Replay != "" {
 		for _, l := range hx.ReplayOps(run.Replay) {
